@@ -191,6 +191,9 @@ Proof.
   intros Hcb Hns Hw Hbg Hbr s Hp. pose proof (can_noscan_nm c Hns) as Hnm.
   pose proof Hw as Hw'. unfold wf_scanner in Hw'. apply andb_true_iff in Hw' as [Hwg Hwr].
   unfold do_scan. rewrite Hns. unfold bindM at 1.
+  replace ((if c_direct c then send_imports c Never inp else ret tt) s) with (s, @inl unit err tt)
+    by (destruct (c_direct c); [rewrite send_imports_list by exact Hcb; reflexivity|reflexivity]).
+  unfold bindM at 1.
   rewrite InterruptProofs.on_timeout_noop
     by (destruct (InterruptProofs.good_eval_without_matches c (AbortAt 1) ltac:(discriminate) inp sc) as [E _];
         apply E).
